@@ -8,7 +8,9 @@ C05_RULE = (
     "intercepted pthread call and harness point; the same plan is also run with 1 thread as reference. A run is "
     "non-trivial if at least one decision point had >= 2 runnable tasks; two runs are distinct if their interleaving "
     "shapes differ, the shape being the hash of the sequence (task at the decision point, kind of point, object index, "
-    "task chosen next) over all decision points, which does not depend on the random plan values.")
+    "task chosen next) over all decision points, which does not depend on the random plan values. The real-tool engines generate a "
+    "small molecular system (4..12 chain molecules, 1..12 frames as LAMMPS dump or GRO, XML topology, options, optional mapping / IMC / "
+    "block output) per run and compare all output files of the --nt k run under the seeded schedule with the --nt 1 run.")
 
 C10_RULE = (
     "Each evaluation is one seeded simulated run: a plan (1..24 jobs, optional history of COMPLETE/FAILED/ASSIGNED jobs of a vanished host, "
@@ -28,10 +30,24 @@ PROPERTIES = {
             {'name': 'c05_lib', 'quick': 20000, 'thorough': 3000000, 'san': 200000, 'chunk': 2500,
              'required_probes': ['probe.worker_not0_read_first', 'probe.later_frame_read_during_eval', 'probe.fewer_frames_than_threads',
                                  'probe.eof_seen_by_two', 'probe.three_tasks_blocked']},
+            {'name': 'c05_stat', 'quick': 3000, 'thorough': 400000, 'san': 20000, 'chunk': 500,
+             'required_probes': ['probe.outputs_compared', 'probe.block_files_written', 'probe.fewer_frames_than_threads', 'probe.three_tasks_blocked', 'probe.eof_seen']},
+            {'name': 'c05_prdf', 'quick': 1500, 'thorough': 200000, 'san': 10000, 'chunk': 500,
+             'required_probes': ['probe.outputs_compared', 'probe.block_files_written', 'probe.three_tasks_blocked']},
+            {'name': 'c05_tmpl', 'quick': 1000, 'thorough': 100000, 'san': 10000, 'chunk': 500,
+             'required_probes': ['probe.outputs_compared', 'probe.three_tasks_blocked']},
+            {'name': 'c05_orient', 'quick': 1500, 'thorough': 200000, 'san': 10000, 'chunk': 500,
+             'required_probes': ['probe.outputs_compared', 'probe.three_tasks_blocked']},
+            {'name': 'c05_reupd', 'quick': 1500, 'thorough': 200000, 'san': 10000, 'chunk': 500,
+             'required_probes': ['probe.outputs_compared', 'probe.three_tasks_blocked', 'check.stdout_numbers_compared']},
         ],
         'components': {
             'real': ['csg/src/libcsg/csgapplication.cc (Run, ProcessData, Worker::Run)', 'tools/src/libtools/thread.cc', 'tools/src/libtools/mutex.cc',
                      'tools/src/libtools/application.cc (Exec, option parsing)', 'csg Topology / factories'],
+            'real_tools': ['c05_stat: csg/src/tools/csg_stat.cc + csg_stat_imc.cc (ordered)', 'c05_prdf: csg/src/csgapps/partial_rdf/*.cc (ordered)',
+                           'c05_tmpl: csg/share/template/template_threaded.cc (ordered)', 'c05_orient: csg/src/csgapps/orientcorr/orientcorr.cc (unordered)',
+                           'c05_reupd: csg/src/tools/csg_reupdate.cc (unordered)',
+                           'each with its real main() (renamed at compile time), the real XML topology reader, mapping, neighbour search and the real LAMMPS dump / GRO trajectory readers behind a decorator that adds enter/leave monitors and decision points'],
             'stub': ['c05_lib: application subclass, worker, synthetic .simtop/.simtrj readers are harness code',
                      'pthread_create/join/exit/mutex_*: simulated (tasks = ucontext coroutines, mutex = bit + waiters, glibc default-mutex semantics without owner check)'],
         },
@@ -40,6 +56,7 @@ PROPERTIES = {
             'glibc default (non error-checking) mutex semantics: unlock by a non-owner succeeds',
             'only interleavings at intercepted calls and harness points are explored; instruction-level races between unsynchronised plain accesses are out of reach',
             'sampling, not proof: a clean batch bounds confidence by the number of distinct interleavings explored',
+            'real tools: evaluate/merge are observed through the output files (byte-identical in ordered mode; unordered mode: numbers compared to 1e-9 (orientcorr) / 1e-6 (csg_reupdate) only where a perturbed single-thread reference shows them to be well conditioned, csg_reupdate additionally through its printed ensemble averages)',
         ],
     },
     'C10': {
